@@ -492,7 +492,7 @@ def repo_descs(backend) -> List[Desc]:
 CORE_KINDS = {
     'f2_static_special': {'One32': ['c01', 'c04'], 'OneEn': ['c04'], 'StaticPad': ['c03', 'c16'],
                           'PayloadThenPad': ['c04', 'c02'], 'CountPad': ['c01', 'c04'], 'One8': ['c03']},
-    'f2_derived_elem': {'Table': ['c03'], 'Inner': ['c03', 'c02']},
+    'f2_derived_elem': {'Table': ['c03'], 'Inner': ['c03']},
     'f2_en24_arrays': {'EnArrSz': ['c03', 'c04'], 'EnArrCnt': ['c02']},
     'f5_odd_widths': {'Opt24': ['c01', 'c04', 'c02', 'c03', 'c05'], 'Opt40p': ['c03'], 'OptEn24': ['c03', 'c05'],
                       'OptChild': ['c02', 'c04r'], 'Opt56t': ['c04']},
